@@ -215,15 +215,19 @@ func (g *Gen) goType(t *Ty, depth int) *GT {
 			}
 		}
 		x := g.R.Intn(20)
-		if uniform && x < 6 {
+		if uniform && x < 8 {
 			e := g.goType(t.Elems[0], depth-1)
 			if x < 4 {
 				return &GT{Name: "slice", Elems: []*GT{e}}
 			}
 			return &GT{Name: "array", N: len(t.Elems), Elems: []*GT{e}}
 		}
-		if x < 13 {
+		if x < 12 {
 			return &GT{Name: "slice", Elems: []*GT{{Name: "iface"}}}
+		}
+		if x < 14 {
+			// [N]interface{}: the reflect.Array branch of marshalTuple with interface elements (nil, typed nils, ...)
+			return &GT{Name: "array", N: len(t.Elems), Elems: []*GT{{Name: "iface"}}}
 		}
 		s := &GT{Name: "struct"}
 		for _, e := range t.Elems {
